@@ -1,16 +1,16 @@
 #!/bin/bash
 # Run once after a fresh restore, offline: builds the overlay generator and
-# warms the Go build cache by compiling every check binary.
+# warms the Go build cache by compiling every check binary exactly the way
+# ./check does (incl. the source rewrites a check asks for in harness/cNN/REWRITE).
 cd "$(dirname "$0")"
 . ./env.sh
 mkdir -p build/bin evidence replays
 (cd tools/mkoverlay && go build -o ../../build/mkoverlay .) || exit 1
-./build/mkoverlay -repo "$REPO" -verif "$VERIF" -out "$VERIF/build" || exit 1
 rc=0
 for d in harness/c[0-9][0-9]; do
   id=$(basename $d)
   rw=""; [ -f "$d/REWRITE" ] && rw=$(cat "$d/REWRITE")
-  if [ -n "$rw" ]; then ./build/mkoverlay -repo "$REPO" -verif "$VERIF" -out "$VERIF/build" -rewrite "$rw" || rc=1; fi
-  (cd "$REPO" && go build -overlay "$VERIF/build/overlay.json" -tags verif -o "$VERIF/build/bin/$id" ./verif_h/$id) || rc=1
+  ./build/mkoverlay -repo "$REPO" -verif "$VERIF" -out "$VERIF/build" ${rw:+-rewrite "$rw"} || rc=1
+  (cd "$REPO" && go build -overlay "$VERIF/build/overlay.json" -tags verif -o "$VERIF/build/bin/$id" ./verif_h/$id) || { echo "setup: $id does not build" >&2; rc=1; }
 done
 exit $rc
